@@ -28,10 +28,12 @@ Inductive startup :=
 
 Definition max_corr (impact : f64) (D : Z) : f64 := fmul impact (f_of_int D).
 
+(* the three factor tests are written !(x > y) in the code (since /repo 6abb997), so that a NaN factor,
+   for which every comparison is false, is refused *)
 Definition prologue (cfg : config) (D : Z) : startup :=
-  if fle (c_ref cfg) fone then Refuse 1 0
-  else if fle (c_peer cfg) fone then Refuse 2 0
-  else if fle (fsub (c_peer cfg) fone) (c_ref cfg) then Refuse 3 0
+  if negb (fgt (c_ref cfg) fone) then Refuse 1 0
+  else if negb (fgt (c_peer cfg) fone) then Refuse 2 0
+  else if negb (fgt (fsub (c_peer cfg) fone) (c_ref cfg)) then Refuse 3 0
   else if c_interval cfg <=? 0 then Refuse 4 0
   else if (c_timeout cfg <? 0) || (go_div (c_interval cfg) 2 <? c_timeout cfg) then Refuse 5 0
   else
@@ -139,9 +141,11 @@ Definition within (c : Z) (mx : f64) : bool := fle (f_of_int (Z.abs c)) mx.
 Definition bounded (mx : f64) (off : Z) : Z :=
   if within off mx then off else sgn off * f_to_i64 mx.
 
-(* settings that void the bound *)
+(* settings that void the bound: a factor that is not a number above 1 (so: <= 1, or NaN), a peer factor
+   that does not exceed the reference factor by more than 1 (again: also when the difference is not a
+   number), non-positive interval, negative timeout or timeout above half the interval *)
 Definition inadmissible (cfg : config) : bool :=
-  fle (c_ref cfg) fone || fle (c_peer cfg) fone || fle (fsub (c_peer cfg) fone) (c_ref cfg)
+  negb (fgt (c_ref cfg) fone) || negb (fgt (c_peer cfg) fone) || negb (fgt (fsub (c_peer cfg) fone) (c_ref cfg))
   || (c_interval cfg <=? 0) || (c_timeout cfg <? 0) || (Z.quot (c_interval cfg) 2 <? c_timeout cfg).
 
 Definition all_timely (n : nat) (l : list src) : option (list Z) :=
@@ -213,8 +217,7 @@ Fixpoint drift_calls (evs : list event) : list (Z * Z) * list event :=
 
 Definition C01_ok (cfg : config) (nref npeer : nat) (rs : list rnd) (obs : bool * list event) : bool :=
   let '(pan, evs) := obs in
-  if negb (fis_finite (c_ref cfg) && fis_finite (c_peer cfg)) then true   (* NaN or infinite factor: not a number, outside the quantifier *)
-  else if inadmissible cfg then pan && no_do evs                 (* refused at start-up, nothing handed on *)
+  if inadmissible cfg then pan && no_do evs                 (* refused at start-up (NaN factors included), nothing handed on *)
   else
     let '(ds, evs') := drift_calls evs in
     forallb (fun ad => fst ad =? c_interval cfg) ds &&
